@@ -242,6 +242,26 @@ META = {
         ],
         run_cap_s=240, shrink_tests=60, shrink_s=90,
     ),
+    "C20": _m(
+        "O", "exploration", (96, 20000), (420, 3000),
+        "Each run = 6 Stopper configurations (patience 1-12, max_iter <= 40, atol/rtol from {0, small, large}) x 8 loss histories (small "
+        "alphabets, random walks, descents, plateaus) evaluated at every iteration index eagerly / under jit / under vmap; every 4th run "
+        "additionally one optim_flat run on the identity-design model (theta without prior, X = I observed, y_i ~ N((X theta)_i, 1), plain "
+        "SGD, batch size not dividing n): the recorded position history *is* the batch-membership history; every other 4th run one "
+        "optim_flat run on a small regression (adam/sgd, with/without validation model, batching, restore/prune on/off). Non-trivial = at "
+        "least one stopper decision; distinct = distinct configuration tuple.",
+        "stopper decisions + optimiser iterations",
+        "distinct (stopper configurations, optim_flat run configuration) tuples",
+        ["liesel.goose.optim.Stopper, optim_flat, LieselInterface, optax"],
+        [],
+        [
+            "RefStopper evaluates the documented pseudo-code in float32 (the implementation's dtype) so borderline comparisons agree bit for bit",
+            "for i <= patience either answer of stop_early is accepted as long as True implies a full window on which the documented condition holds",
+            "'exhaustively over small alphabets' (the property's quantifier) is model checking and is not done; histories are sampled",
+            "batch coverage: P(false alarm) <= n (r/n)^T < 1e-12 for the generated (n, batch, T); batch_seed is always passed; stderr (tqdm) is discarded",
+        ],
+        run_cap_s=300, shrink_tests=40, shrink_s=120,
+    ),
 }
 
 
@@ -256,6 +276,14 @@ NOT_APPLICABLE["C18"] = (
 )
 
 MANIFEST_TEXT = {
+    "C20": dict(
+        technique="deterministic simulation: seeded loss histories through the real Stopper vs the documented rule; real optim_flat runs whose position history is the batch-membership history (batch PRNG seam)",
+        design_ref="DESIGN.md section 4 C20, section 3 world O",
+        level_text="Seeded loss histories x stopper settings at every iteration index (eager/jit/vmap) against the documented pseudo-code; real "
+        "optim_flat runs checked against the recorded histories (stops where documented, restored optimum, lengths / NaN padding, model state "
+        "consistent) and, on the identity-design model, batch membership per iteration read off the position history. Sampling, not a proof.",
+        level_note="Trusted: optax, jax.lax.while_loop. No stubs: Stopper, optim_flat and the models are real.",
+    ),
     "C03": dict(
         technique="deterministic simulation with fault injection: seeded call histories by several logical clients on one shared interface (eager/jit/vmap mix, raising node functions, user mutating the original) vs direct assignment on a private reference copy",
         design_ref="DESIGN.md section 4 C03, section 3 world I",
